@@ -7,6 +7,7 @@ NET_NOTE = ("Trusted base: TLC; the harness's simulator and projector (CIDs reso
             "the deterministic service algebra implemented twice (Rust / AirValues.tla). Bounded: seeded random scripts "
             "(3-5 peers, <= ~30 instructions) and schedules; TLC-emitted schedules for the catalogue scripts.")
 
+NOTES = {}
 CHECKS = {
  "C02": ("model_checking", "TLC checks Props!C02 as an invariant of the trace specification TraceNet on every step recorded from the real execute_air in simulated multi-peer histories (prev data returned byte-for-byte on prep/uncatchable failures, no next peers/requests; new decodable data holding every applied host result otherwise).", "TLA+ trace validation (TraceNet) of harness-recorded histories; invariant Props!C02"),
  "C03": ("model_checking", "TLC checks Props!C03 on every produced datum of every recorded run: decodes, supported version, every store entry hashes to its key (recomputed independently with sha2/blake3), no dangling reference, every attributed peer's signature verifies for this particle, a fresh peer accepts it as current data.", "TLA+ trace validation; invariant Props!C03 incl. fresh-peer acceptance probe"),
@@ -17,6 +18,8 @@ CHECKS = {
  "C08": ("model_checking", "At the end of recorded histories the harness merges sets of <= 4 data at a fresh observer in every order and two groupings; TLC compares the distinct outcomes pairwise with Props!C08 (same knowledge; equal modulo senders without streams).", "TLA+ trace validation of observer-merge events; invariant Props!C08"),
  "C09": ("model_checking", "TLC checks bag inclusion of the results (by content id) of previous and current data in the output of every successful recorded run.", "TLA+ trace validation; invariant Props!C09"),
  "C10": ("model_checking", "TLC evaluates the independent recursive-descent reader AirData!WF on every trace the real code produced (runs and observer merges).", "TLA+ trace validation; invariant AirData!WF"),
+ "C14": ("fault_enumeration", "TLC enumerates the whole catalogue of tamper operations (value swap in place / with consistent re-hash, tetraplet and argument-hash change, relocation and replay of a result at another call, state-kind change, result removal, signature drop/swap, particle-id change; pairs in the thorough tier) x target positions x victim states; each is applied by the harness to honest data (attacker re-signs only his own results) and run on the real victim; TLC checks that every result attributed to an honest peer in the victim's new data is one that peer really produced (C14a) and that the new data re-reads without parameter mismatch under the model interpreter (C14b). The ideal-signature model's accept/reject decision is compared with the implementation's on every case (reported as conformance).", "TLA+ enumeration of tamper cases (Adversary.tla) + fault injection on the real code + trace validation"),
+ "C15": ("fault_enumeration", "Same enumeration, invariant Adversary!C15a/b: per-peer content-id bags of previous and current data that are not nested => rejected in preparation with the previous data returned; otherwise the new data holds the larger bag. Honest part: TraceNet!InvC15 checks nestedness and non-rejection on every run of seeded honest histories.", "TLA+ enumeration of fork/tamper cases + trace validation (Adversary.tla, TraceNet!InvC15)"),
  "C16": ("model_checking", "Every request any host receives in recorded histories of fragment scripts is checked by TLC (TraceNet!InvC16) for bag inclusion in the calls of the independent sequential evaluator SeqSem (same peer, service, function, argument values).", "TLA+ trace validation against the sequential reference evaluator SeqSem.tla"),
  "C17": ("model_checking", "The tetraplets of every request are compared by TLC (TraceNet!InvC17) with the provenance SeqSem predicts for the argument expressions (producer triplet, exact lens); one recorded deviation (functor .length) is classified inside the invariant and listed in known_findings.json.", "TLA+ trace validation against SeqSem provenance"),
  "C16": ("model_checking", "Every request any host receives in recorded histories of fragment scripts is checked by TLC (TraceNet!InvC16) for bag inclusion in the calls of the independent sequential evaluator SeqSem (same peer, service, function, argument values).", "TLA+ trace validation against the sequential reference evaluator SeqSem.tla"),
@@ -36,8 +39,6 @@ NOT_YET = {
  "C11": "needs the model annotator (stage 2 of the interpreter specification); not built yet",
  "C12": "needs stream-aware annotator (stage 2); not built yet",
  "C13": "needs the model's stream contents as oracle (stage 2); not built yet",
- "C14": "Adversary layer not built yet",
- "C15": "Adversary layer (fork pairs) not built yet",
  "C18": "failure-kind generator not built yet",
  "C25": "function-level specification not built yet",
  "C26": "function-level specification not built yet",
@@ -54,7 +55,7 @@ def main():
             "replay_cmd_template": "./check replay {path}",
             "engine": "tlc+harness",
             "level_claimed": {"category": level, "text": text, "design_ref": f"DESIGN.md section 6, {pid}"},
-            "level_note": NET_NOTE,
+            "level_note": NOTES.get(pid, NET_NOTE),
             "technique": tech,
         })
     m = {
